@@ -405,6 +405,14 @@ func sortRules(l []*nsxRule, m map[string]*nsxGroup) {
 		}
 		return cmp.Compare(ei, ej)
 	}
+	groupCmp := func(ei, ej string) int {
+		gi := getGroup(ei, m)
+		gj := getGroup(ej, m)
+		if gi != nil && gj != nil {
+			return slices.Compare(gi.Expression[0].IPAddresses, gj.Expression[0].IPAddresses)
+		}
+		return 0
+	}
 	boolCmp := func(a, b bool) int {
 		if a == b {
 			return 0
@@ -459,7 +467,15 @@ func sortRules(l []*nsxRule, m map[string]*nsxGroup) {
 		if n := elementCmp(a.SourceGroups[0], b.SourceGroups[0]); n != 0 {
 			return n
 		}
-		return elementCmp(a.DestinationGroups[0], b.DestinationGroups[0])
+		if n := elementCmp(a.DestinationGroups[0], b.DestinationGroups[0]); n != 0 {
+			return n
+		}
+		// Rules only differ in groups having identical first element.
+		// Compare all elements to get a well defined order.
+		if n := groupCmp(a.SourceGroups[0], b.SourceGroups[0]); n != 0 {
+			return n
+		}
+		return groupCmp(a.DestinationGroups[0], b.DestinationGroups[0])
 	})
 }
 
